@@ -56,6 +56,10 @@ impl Scripted {
         match self.script.iter().find(|(i, _)| *i == k) {
             Some((_, 's')) => ParseAction::Stop,
             Some((_, 'e')) => ParseAction::Error(Box::new(ScriptErr(k))),
+            // the consumer's own error value happens to be a `ParseState` (e.g. forwarded from a nested parse)
+            Some((_, 'p')) => ParseAction::Error(Box::new(ParseState::HeaderIncorrect)),
+            Some((_, 'q')) => ParseAction::Error(Box::new(ParseState::ConsumerStopRequested)),
+            Some((_, 'c')) => ParseAction::Error(Box::new(ParseState::Complete)),
             _ => ParseAction::Continue,
         }
     }
@@ -83,7 +87,10 @@ pub fn show_state(r: &Result<(), ParseState>) -> String {
         Err(s) => match s {
             ParseState::Complete => "Complete".to_string(),
             ParseState::ConsumerStopRequested => "ConsumerStopRequested".to_string(),
-            ParseState::ConsumerError(e) => format!("ConsumerError:{}", e),
+            ParseState::ConsumerError(e) => match e.downcast_ref::<ParseState>() {
+                Some(inner) => format!("ConsumerError:state:{}", format!("{}", inner).replace(' ', "_")),
+                None => format!("ConsumerError:{}", e),
+            },
             ParseState::HeaderIncomplete(e) => format!("HeaderIncomplete:{}", derr(e)),
             ParseState::HeaderIncorrect => "HeaderIncorrect".to_string(),
             ParseState::EndiannessUnsupported => "EndiannessUnsupported".to_string(),
